@@ -24,8 +24,9 @@ def lazy_indices_product(args: list[int]):
     :return: 'lazy' cartesian product
     """
     moduli = args
-    denominators = [1] + list(accumulate(reversed(moduli[1:]), mul))
-    nb_of_elements = denominators[-1] * args[0]
+    # denominators[k] is the product of the sizes to the right of position k (mixed-radix representation)
+    denominators = list(reversed([1] + list(accumulate(reversed(moduli[1:]), mul))))
+    nb_of_elements = denominators[0] * args[0]
 
     for n in range(nb_of_elements):
         yield tuple(
